@@ -654,6 +654,39 @@ def check_exit_sticky(ck, prog):
           key="EXIT:sticky-error")
 
 
+def check_eof(ck, prog):
+    """End of input is what read() reporting 0 bytes means, nothing else: io_read() may set pair->src_eof only on the
+    edge `amount == 0`.  (A short count is not end of file -- pipes, network file systems, signals -- and treating it as
+    one makes xz finish a truncated stream successfully and unlink the source.)"""
+    ck.rule("C17-EOF", "pair->src_eof is set only where read() returned 0")
+    f = prog.fn("io_read", "file_io.c", target="xz")
+    ck.saw_function(f)
+    stores = [(b, i, n) for b, i, e in f.iter_elems() for (l, r, op, n) in ex.writes(e)
+              if ex.show(l).endswith("->src_eof") and r is not None and not ex.is_const(r, 0)]
+    if not stores:
+        raise AnalysisBroken("io_read: no store to pair->src_eof")
+    gs = guard.find_cmp(f, "var:amount", "const:0")
+    if not gs:
+        raise AnalysisBroken("io_read: comparison `amount == 0` not found")
+    doms = cfg.dominators(f)
+    bad = None
+    for (b, i, n) in stores:
+        ok = False
+        for g_ in gs:
+            tb = f.blocks[g_.bid]
+            idx = {"T": 0, "F": 1}.get(g_.pass_label)
+            tgt = tb.succs[idx] if idx is not None and idx < len(tb.succs) else None
+            if tgt is not None and (tgt == b.id or tgt in doms.get(b.id, ())) and len(f.blocks[tgt].preds) == 1:
+                ok = True
+        if not ok:
+            bad = n
+    ck.ob("C17-EOF", "io_read", bad is None, common.where(f, bad or stores[0][2]),
+          "io_read: %d store(s) to src_eof, each on the `amount == 0` edge" % len(stores) if bad is None else
+          "io_read(): pair->src_eof is set at line %s on a path where read() did not return 0 (e.g. after a short read): the "
+          "input is then treated as complete, a truncated stream is finished successfully and the source file is removed"
+          % ex.line(bad), key="EOF:io_read")
+
+
 def run(ck):
     ck.explanation = (
         "Finite-domain path-sensitive analysis of `success` through io_close (with each I/O primitive forced to "
@@ -670,3 +703,4 @@ def run(ck):
     check_status(ck, prog)
     check_perfile(ck, prog)
     check_exit_sticky(ck, prog)
+    check_eof(ck, prog)
